@@ -221,7 +221,17 @@ func (w *Worker) runSeq(seq []Row, idx int, slowReqCheck bool) (mm *Mismatch) {
 			}
 		}
 		if r.Fatal && r.Frame == "err" {
-			extra, err := t.Closed(readDeadline)
+			extra, err := t.Closed(2 * time.Second)
+			if err == errTimeout && !t.half {
+				// still open: a command that always has an answer tells "closing slowly" from "still serving"
+				t.Send([]byte("VERIFBARRIER\n"), false)
+				extra, err = t.Closed(readDeadline)
+				if extra != nil && extra.ft == 1 && strings.HasPrefix(string(extra.data), "E_INVALID invalid command VERIFBARRIER") {
+					return fail("close", r, "a fatal error was answered but the connection stayed open and went on serving commands")
+				}
+			} else if err == errTimeout {
+				extra, err = t.Closed(readDeadline)
+			}
 			if err == errTimeout {
 				return fail("close", r, "fatal error answered but the connection is still open after %v", readDeadline)
 			}
